@@ -57,6 +57,12 @@ def enumerated(tier):
         for d in (["ok", ["10.1.0.1"], 8], ["ok", ["10.1.0.1"], 1]):
             for ev in ({"at": 2}, {"at": 6}, {"at": 10}, {"it": 2}, {"it": 3}, {"it": 4}):
                 yield {**sc, "addresses": ["a.example.com"], "dns": {"a.example.com": d}, "overlap_probe": True, "events": [{"do": "reuse_start", **ev}]}
+    # a malformed key: the attempt fails at its second phase -- the object is used up all the same
+    for psk in ("AAAA", "not base64 at all", "QRTIErOb/fcE9Ukd/5qA3RGYMn0Y+p06U58SCtOXvPc", ""):
+        for sc in ({"noise": True, "login": False, "flow": "connect", "K": 8.0, "events": [], "final_at": 100.0},
+                   {"noise": True, "login": True, "flow": "connect", "K": 8.0, "split": 1, "gap": 1, "events": [], "final_at": 100.0},
+                   {"noise": True, "login": True, "flow": "connect", "K": 8.0, "split": 1, "gap": 3, "events": [{"do": "chunk", "frames": ["garbage"], "it": 5}], "final_at": 100.0}):
+            yield {**sc, "psk_text": psk}
     yield from life.slow_hello_disconnect_sweep()
     yield from life.hello_trailer_sweep()
     yield from life.sock_fault_sweep()
